@@ -204,12 +204,13 @@ def directed_wide(thorough=False):
         out.append(c("paths", 5, 0, len=2, allowChars=wide, requireSets=[wide[-1:]]))
     # k required sets, all but one of them satisfied by the first character of the alphabet: the all-first-index stream
     # must exhaust the attempts (error), the others must return a password that meets all k sets
+    # (the library's count walks all 2^k subsets of the required sets twice per Generate: a 17-set cell costs about 3 s per call)
     for k in (9, 17) + ((18,) if thorough else ()):
-        for special_last in (True, False):
+        for special_last in ((True, False) if (thorough or k < 17) else (True,)):
             # (equal and nested sets: the specification counts over the minimal distinct ones, the code over all k by index)
             common = [[ord("a")] + [0x100 + j for j in range(i % 4)] for i in range(k - 1)]
             sets = common + [[ord("z")]] if special_last else [[ord("z")]] + common
-            out.append(c("paths", 5, 0, len=8, allowChars=[ord("a"), ord("m"), ord("z")], requireSets=sets))
+            out.append(c("paths", 5 if k < 17 else 2, 0, len=8, allowChars=[ord("a"), ord("m"), ord("z")], requireSets=sets))
     return out
 
 
